@@ -18,6 +18,7 @@ def run(rep, kf, tier, seed):
     engine_b.discharge(rep, kf, [cproj.init_contract(), cpc.process_config_contract(), cproj.build_contract("NONE"),
                                  cproj.build_contract("POETRY")] + cpl.all_contracts(), "C16", tier, seed)
     rep.obligations = [o for o in rep.obligations if "C16" in o.props or o.id.endswith("no-exception-escapes")]
+    overrides_package(rep, kf, tier, seed)
     cd.discharge(rep, kf, "C16", tier, seed)
     import contracts.closure as cl
     cl.import_closure_obligations(rep, "C16")
@@ -31,3 +32,75 @@ def run(rep, kf, tier, seed):
         "same behavioural contracts under C14/C02; here they are imported natively for the schematic family",
     ])
     return {"level": "proof"}
+
+
+def overrides_package(rep, kf, tier, seed):
+    """content_type_overrides on the generated code: a request media type behaves as the one it maps to (json / form / multipart
+    encoding of the body) and is still announced as itself; a response media type is decoded as the one it maps to"""
+    from pyvc import fragments
+    import contracts.endpoints_f as ef
+    ov = {"application/x-things": "application/json", "text/x-form": "application/x-www-form-urlencoded",
+          "multipart/x-upload": "multipart/form-data", "application/x-blob": "application/octet-stream"}
+    body = {"$ref": "#/components/schemas/Body"}
+    ok = {"200": {"description": ""}}
+    ops = {}
+    paths = {}
+    for i, (declared, target) in enumerate(ov.items()):
+        schema = {"type": "string", "format": "binary"} if target == "application/octet-stream" else body
+        opid = f"body_over{i}"
+        content = {declared: {"schema": schema}}
+        paths[f"/o{i}"] = {"post": {"operationId": opid, "tags": ["b"], "requestBody": {"content": content}, "responses": ok}}
+        ops[opid] = ("post", f"/o{i}", [], content)
+    # responses: media types that are decodable by themselves but are mapped elsewhere (the mapping wins), and one that is not
+    resp = {"200": {"description": "", "content": {"application/octet-stream": {"schema": body}}},
+            "201": {"description": "", "content": {"application/x-things": {"schema": body}}},
+            "202": {"description": "", "content": {"application/json": {"schema": {"type": "string"}}}}}
+    ov_resp = dict(ov, **{"application/octet-stream": "application/json", "application/json": "text/plain"})
+    paths["/r"] = {"get": {"operationId": "resp_over", "tags": ["r"], "responses": resp}}
+    doc = {"openapi": "3.0.3", "info": {"title": "ov", "version": "1"}, "paths": paths,
+           "components": {"schemas": {"Body": {"type": "object", "required": ["n"], "properties": {"n": {"type": "integer"}},
+                                               "additionalProperties": False}}}}
+    ov = dict(ov)
+    ov_all = dict(ov_resp)
+    del ov["application/x-blob"]          # (application/octet-stream is re-mapped for the response cases)
+    ops.pop("body_over3", None)
+    paths.pop("/o3", None)
+    pkg = fragments.generate_package(doc, {"content_type_overrides": ov_all})
+    try:
+        if pkg.errors:
+            rep.add(core.Obligation(id="C16.F.overrides-document.accepted", props=["C16"], unit="generate", backend="native",
+                                    status=core.UNDECIDED, detail="diagnostics: " + "; ".join(f"{e.header} {e.detail}" for e in pkg.errors)[:300]))
+            return
+        for opid, (method, path, params, content) in ops.items():
+            r = core.Report("C16", tier, seed)
+            c = ef.get_kwargs_contract(pkg, doc, opid, method, path, params, content, "3.0.3", overrides=ov)
+            for case in c.cases:
+                case.props = ["C16"]
+                case.pool = None
+                for cl in case.clauses:
+                    cl.props = ["C16"]
+            engine_b.discharge(r, kf, [c], "C16", tier, seed)
+            for o in r.obligations:
+                o.id = o.id.replace(".B.", ".F.")
+                o.backend = "z3 (fragment rendered by the real templates)"
+                o.unit = f"endpoint templates as rendered with content_type_overrides for the request media type {list(content)[0]}"
+                o.where = "openapi_python_client/templates/endpoint_module.py.jinja"
+            rep.merge(r)
+        for entry in ("_parse_response", "_build_response"):
+            r = core.Report("C16", tier, seed)
+            c = ef.parse_response_contract(pkg, doc, "resp_over", resp, "3.0.3", entry, overrides=ov_all)
+            for case in c.cases:
+                case.props = ["C16"]
+                case.pool = None
+                case.name = "content-type-overrides." + case.name
+                for cl in case.clauses:
+                    cl.props = ["C16"]
+            engine_b.discharge(r, kf, [c], "C16", tier, seed)
+            for o in r.obligations:
+                o.id = o.id.replace(".B.", ".F.")
+                o.backend = "z3 (fragment rendered by the real templates)"
+                o.unit = "endpoint templates as rendered with content_type_overrides for response media types"
+                o.where = "openapi_python_client/templates/endpoint_module.py.jinja"
+            rep.merge(r)
+    finally:
+        pkg.cleanup()
